@@ -149,6 +149,7 @@ type runStep struct {
 	StdinOffset int              `json:"stdin_offset,omitempty"`
 	Chunks      []int            `json:"chunks,omitempty"`
 	SinkLimit   *int             `json:"sink_limit,omitempty"`
+	SinkErr     string           `json:"sink_err,omitempty"` // how stdout fails at the limit: "" (ENOSPC) | eio | epipe
 	Faults      []simos.Fault    `json:"faults,omitempty"`
 	PowerLoss   *simos.PowerLoss `json:"powerloss,omitempty"`
 }
@@ -335,7 +336,7 @@ func (x *cliExec) reference(rs *runStep, files map[string][]byte, stdin []byte) 
 	h := sha256.New()
 	fmt.Fprintf(h, "%q|%s|%v|%v|%d|", rs.Argv, rs.Stdin, rs.Chunks, rs.StdinFile, rs.StdinOffset)
 	if rs.SinkLimit != nil {
-		fmt.Fprintf(h, "sink=%d|", *rs.SinkLimit)
+		fmt.Fprintf(h, "sink=%d%s|", *rs.SinkLimit, rs.SinkErr)
 	}
 	h.Write([]byte(filesDigestFull(files)))
 	h.Write(stdin)
@@ -349,7 +350,7 @@ func (x *cliExec) reference(rs *runStep, files map[string][]byte, stdin []byte) 
 	}
 	spec := simos.ProcSpec{SinkLimit: -1, FifoChunks: altChunks(rs.Chunks)}
 	if rs.SinkLimit != nil {
-		spec.SinkLimit = *rs.SinkLimit
+		spec.SinkLimit, spec.SinkErr = *rs.SinkLimit, rs.SinkErr
 	}
 	if rs.Stdin == "" {
 		spec.Stdin.Tty = true
@@ -487,7 +488,7 @@ func (x *cliExec) runStep(i int, rs *runStep) {
 	ref := x.reference(rs, files, stdin)
 	spec := simos.ProcSpec{SinkLimit: -1, Faults: rs.Faults, PowerLoss: rs.PowerLoss, FifoChunks: rs.Chunks}
 	if rs.SinkLimit != nil {
-		spec.SinkLimit = *rs.SinkLimit
+		spec.SinkLimit, spec.SinkErr = *rs.SinkLimit, rs.SinkErr
 	}
 	if rs.Stdin == "" {
 		spec.Stdin.Tty = true
@@ -534,6 +535,16 @@ func (x *cliExec) runStep(i int, rs *runStep) {
 			if strings.HasPrefix(o.Res, "fd") {
 				info.created = append(info.created, o.Path)
 				opened = ""
+			}
+		case "rename":
+			// an entry written aside takes its place: what was created under
+			// the old name is this step's work under the new one
+			if o.To != "" {
+				for k, c := range info.created {
+					if c == o.Path {
+						info.created[k] = o.To
+					}
+				}
 			}
 		}
 	}
@@ -874,6 +885,7 @@ func cliCandidates(sc *cliScenario) []*cliScenario {
 		if st.Run.SinkLimit != nil {
 			c := sc.clone()
 			c.Steps[i].Run.SinkLimit = nil
+			c.Steps[i].Run.SinkErr = ""
 			out = append(out, c)
 		}
 		if st.Run.StdinFile && st.Run.StdinOffset == 0 {
